@@ -375,6 +375,8 @@ def extraction_crosscheck(runner, shard_text, root, max_cases=40):
             hs.append(cur)
         elif cur is not None and line.strip() and not line.startswith("#"):
             cur.append(line)
+    # `cyc` is glue outside the model (see extract/c_driver.ml): histories using it are not re-evaluated
+    hs = [h for h in hs if not any(l.split()[0] == "cyc" for l in h[1:])]
     small = [h for h in hs if len(h) <= 60 and 0 <= int([t for t in h[0].split() if t.startswith("cap=")][0][4:]) <= 70000][:max_cases]
     if not small:
         return 0, []
